@@ -109,10 +109,15 @@ class Flow(object):
         # type: () -> str
         return 'Flow({}, {})'.format(self.hint, self._names)
 
-    def add_name(self, name):
-        # type: (Name) -> None
+    def add_name(self, name, local=True):
+        # type: (Name, bool) -> None
         name.scope = self.scope
-        if name.name in self.scope.globals:
+        if not local:
+            # a comprehension variable: visible in this region only, the
+            # enclosing scope does not own it (it masks no outer name there)
+            name.comp_var = True  # type: ignore[attr-defined]
+            insert_loc(self._names, name)
+        elif name.name in self.scope.globals:
             self.scope.top.add_global(name)
         else:
             self.scope.locals.add(name.name)
@@ -168,7 +173,18 @@ class Flow(object):
                     return MergedDict(self.scope._global_names, snames)
                 else:
                     outer_names = set(snames).difference(self.scope.locals)
-                    return {n: snames[n] for n in outer_names}
+                    names = {n: snames[n] for n in outer_names}
+                    # a lambda inside a comprehension sees its variables
+                    flow = getattr(self.scope, 'comp_flow', None)
+                    cvars = {}  # type: dict[str, Name]
+                    while flow is not None and flow.hint in ('comp', 'walrus'):
+                        for cv in flow._names:
+                            if getattr(cv, 'comp_var', False):
+                                cvars.setdefault(cv.name, cv)
+                        flow = flow.parents[0] if len(flow.parents) == 1 else None  # type: ignore[assignment]
+                    names.update((n, v) for n, v in iteritems(cvars)
+                                 if n not in self.scope.locals)
+                    return names
             else:
                 return {}
 
